@@ -6,6 +6,12 @@ HERE = os.path.dirname(os.path.dirname(os.path.abspath(__file__)))
 ALL = ["C%02d" % i for i in range(1, 21)]
 
 CHECKS = {
+    "C01": dict(
+        technique="Hypothesis-generated DSL programs and declare/ensure/solve histories against a reference evaluator with brute-force model enumeration, planted models and planted contradictions",
+        text="Programs are written through the public DSL from typed recursive recipes (every operator, literals on either side, n-ary/empty/constant-only aggregates). SAT answers are checked by evaluating every constraint under the published sol values (types and bounds included); UNSAT answers by exhaustive enumeration of the declared domains (enumerable class) or by construction (phi and its structural negation) on domains up to +-10^6; planted-SAT programs must be found SAT. Histories re-check after every prefix. Exploration: sampled, not exhaustive.",
+        note="Trusted base: vlib/gen_expr.rev (40-line evaluator of the recipe with the ordinary meaning), Python itertools enumeration. Only well-typed DSL-built trees; 1-ary SUB excluded. Default backend of the tree (z3 offline). 9/9 sensitivity mutants caught (tools/mutant_table.py).",
+        design_ref="3/C01",
+    ),
     "C13": dict(
         technique="exhaustive small-scope enumeration + Hypothesis key pairs against Python list indexing (differential oracle)",
         text="Every integer key, slice triple (bounds in [-size-3,size+3], steps +-1,2,3,5), key pair, coordinate list, flatten and reshape on all 1-D sizes 0..6 and 2-D shapes up to 4x4 (plus 2x5/5x2/1x6) is compared with Python's own list indexing; exhaustive inside that scope, sampled by Hypothesis beyond it. Exploration level: no absence proof beyond the scope, but the code has no size-dependent branch other than the per-axis normalisation the scope crosses.",
